@@ -101,7 +101,11 @@ def _java(args, cwd, env=None, timeout=3600, extra_java=()):
     e.pop('JAVA_TOOL_OPTIONS', None)
     if env:
         e.update(env)
-    cmd = (['java', '-XX:+UseParallelGC', '-Xss16m'] + list(extra_java)
+    gc = ['-XX:+UseParallelGC']
+    if '-workers' in args and args[list(args).index('-workers') + 1] in ('1', '2'):
+        # many single-worker JVMs run side by side: keep each one small
+        gc = ['-XX:+UseSerialGC', '-XX:ActiveProcessorCount=2', '-Xmx3g']
+    cmd = (['java'] + gc + ['-Xss16m'] + list(extra_java)
            + ['-cp', TLA_CP, 'tlc2.TLC'] + list(args))
     try:
         p = subprocess.run(cmd, cwd=str(cwd), env=e, text=True,
